@@ -562,7 +562,10 @@ def run_inc_cases(rep, cases, tag):
     terms = []
     for n, c in enumerate(cases):
         c["outs"] = outs[3 * n:3 * n + 3]
-        obs = "[" + "; ".join("(%d, %s)" % (b, obs_term(o)) for b, o in zip(c["bases"], c["outs"])) + "]"
+        lens = {len(o["code"]) // 2 for o in c["outs"] if o["outcome"] == "ok"}
+        c["lens"] = sorted(lens)
+        # images of different lengths break the law outright; they are not shipped to coqc (they can be 50 kB of gap)
+        obs = "[" + "; ".join("(%d, %s)" % (b, obs_term(o) if len(lens) <= 1 else "ObsOther") for b, o in zip(c["bases"], c["outs"])) + "]"
         awt = "[" + "; ".join("(%d, %s)" % (o, C.zlit(k)) for o, k in c["aw"]) + "]"
         terms.append("((%s, %s) : law_case)" % (awt, obs))
     codes = C.run_case_files(ID + tag, "Base.Res Model.Poly Model.Reloc Run.C09Run", "Open Scope string_scope.\nOpen Scope Z_scope.",
@@ -580,6 +583,10 @@ def run_inc_cases(rep, cases, tag):
                 "errors": sorted({d[1] for d in o["diags"] if d[0] != "warning"}), "crash": o.get("crash")} for b, o in zip(c["bases"], c["outs"])]
         if any(o["outcome"] in ("crash", "hang", "harness-error") for o in c["outs"]):
             rep.violate("crash-include:" + str([o.get("crash") for o in c["outs"]])[:80], "the assembler crashed or hung", inp, impl=obs)
+        elif len(c["lens"]) > 1:
+            rep.violate("law-include-length:" + "+".join(c["kinds"]), "images of a program with included files have different lengths at different "
+                        "link bases: %s bytes (expected %d everywhere)" % (c["lens"], c["total"]), inp,
+                        impl=[{**o, "code": (o["code"] or "")[:200]} for o in obs])
         elif len(oks) < 3:
             # by construction everything fits at all three bases (even addresses, base + size < 2^16, near branches)
             rep.violate("include-rejected:" + "+".join(c["kinds"]), "a program with included files that fits at this link base was rejected "
